@@ -23,6 +23,8 @@ Documented config semantics used on top of the statement:
   * multiple_hit_window: after an accepted hit further hits are ignored for that many ms.
   * one occurrence of an event hits every accrual step that lists it, and advances a sequence by at most
     one step.
+  * a control event configured with a delay ("event: 500ms") is carried out that long after it was posted,
+    once per occurrence (class DelayedEvents).
 
 Named relaxations (the statement leaves these open; both outcomes are accepted):
   R-window-tie      a hit processed in the very instant the loop reached the end of the window (tie order,
@@ -35,6 +37,7 @@ Named relaxations (the statement leaves these open; both outcomes are accepted):
                     of candidate deadlines; a timeout is legal only at a candidate, and it is *required*
                     only when the timer was started in a documented way.
   R-random          advance_random may pick any step that is not yet hit.
+  R-delayed-stop    see DelayedEvents: delayed control events in flight when their mode begins to stop.
 """
 
 EPS = 1e-9
@@ -111,6 +114,74 @@ class TimerModel:
         return [d for d, _ in self.cands]
 
 
+class DelayedEvents:
+    """Control events configured with a delay ("count_events: {pop_hit: 500ms}").
+
+    Statement: "for any sequence of count or step events, enable, disable, reset, restart ..." - every
+    *occurrence* of a control event is one operation.  Documented config semantics of the "event: delay" form:
+    the operation is carried out `delay` after the event was posted.  So each processed occurrence acts
+    exactly once, at (instant it was processed) + delay, late only when the loop itself was late; occurrences
+    never merge, also not when several of them (same event twice, or two events with the same delay) are in
+    flight at the same time.
+    Mode-based blocks: the delayed occurrences belong to the mode; what is still in flight when the mode stops
+    is not carried out any more.  R-delayed-stop: an occurrence that is in flight when the stop of the mode
+    *begins*, or that is posted while the mode is stopping, may still act as long as the block exists (until
+    the mode has finished stopping) or be dropped - both are accepted; after that it must not act.
+    """
+
+    def __init__(self):
+        self.pending = []          # dicts: op, d (deadline), idx (stall index), must, ms, event, t (posted)
+
+    def add(self, op, now, ms, idx, must, event):
+        e = {"op": op, "d": now + ms / 1000.0, "idx": idx, "must": must, "ms": ms, "event": event, "t": now}
+        self.pending.append(e)
+        return e
+
+    def overlaps(self, op, ms):
+        """Occurrences of the same operation with the same delay already in flight."""
+        return [e for e in self.pending if e["op"] == op and e["ms"] == ms]
+
+    def relax(self):
+        """The stop of the mode begins (R-delayed-stop)."""
+        n = 0
+        for e in self.pending:
+            if e["must"]:
+                e["must"] = False
+                n += 1
+        return n
+
+    def drop_all(self):
+        n = len(self.pending)
+        self.pending = []
+        return n
+
+    def take(self, op, now, landing):
+        """An operation `op` was carried out by a delay at `now`: the occurrence it belongs to (or None)."""
+        best = None
+        for e in self.pending:
+            if e["op"] == op and abs(landing(e["d"], e["idx"]) - now) <= EPS:
+                # required occurrences first, oldest first
+                if best is None or (e["must"] and not best["must"]):
+                    best = e
+        if best is not None:
+            self.pending.remove(best)
+        return best
+
+    def prune(self, now, landing):
+        """Occurrences whose instant has passed without the operation.  Returns the required ones (lost)."""
+        keep, lost = [], []
+        for e in self.pending:
+            if landing(e["d"], e["idx"]) >= now - EPS:
+                keep.append(e)
+            elif e["must"]:
+                lost.append(e)
+        self.pending = keep
+        return lost
+
+    def deadlines(self):
+        return [e["d"] for e in self.pending]
+
+
 class BlockModel:
     """Common part: enabled/completed, completion handling, timeout timer, (un)loading for mode-based blocks."""
 
@@ -137,6 +208,7 @@ class BlockModel:
         self.pending_start_enable = False
         self.completions = 0
         self.accepted_hits = 0
+        self.delayed = DelayedEvents()
 
     # -- to be specialised ---------------------------------------------------------------------
     def default_hit_events(self):
